@@ -1,6 +1,9 @@
 """C11 - multi-window results are joins of what each window itself reported.
 
-Requirement: tla/rsp/MultiTrace.tla.  Real engines over two windows on two streams (sharing or not
+L1  tla/rsp/MultiImpl.tla: code-shaped model (one shared store, a worker per window, coordinator with the four
+    synchronisation policies, timer as a silent action) checked by TLC against the requirement for all interleavings;
+    negative control: per-window eviction (the historic design) leaks.
+L3  requirement tla/rsp/MultiTrace.tla.  Real engines over two windows on two streams (sharing or not
 sharing vocabulary, optionally with static background data and rules) are fed seeded interleaved
 streams under every synchronisation policy, single-threaded and multi-threaded with perturbed
 schedules; every emitted solution is judged by TLC against the contents the windows reported
@@ -92,6 +95,13 @@ def run(ctx):
         validate(os.path.join(wd, "replay.ndjson"), verdict, "replay")
         return verdict.finish()
     thorough = ctx.tier == "thorough"
+    mc = vlib.tlc_mc(FAMILY, "MCMulti.tla", "MCMulti_thorough.cfg" if thorough else "MCMulti_quick.cfg", workers=8)
+    log(f"L1 MultiImpl (shared store, workers, coordinator, 4 policies): {mc['states']} distinct states, violated={mc['violated']}")
+    if mc["uncovered"]:
+        raise vlib.ToolError(f"vacuity: actions never taken in L1: {mc['uncovered']}")
+    neg = vlib.tlc_mc(FAMILY, "MCMulti.tla", "MCMulti_unfixed.cfg", workers=4, coverage=False, tag="c11-neg")
+    if neg["violated"] != "BlockAnswersFromOwnWindow":
+        raise vlib.ToolError("non-vacuity check failed: per-window eviction no longer leaks in the model")
     rng = random.Random(ctx.seed * 1299709 + 11)
     n = 1500 if thorough else 120
     cases = [gen_case(rng, i) for i in range(n)]
@@ -101,6 +111,8 @@ def run(ctx):
     runs, failed, res = validate(tp, verdict, "l3")
     emits = sum(1 for ev in runs.values() for e in ev if e["ev"] == "emit")
     log(f"validated {len(runs)} scenarios, {emits} emitted solutions: {len(failed)} scenarios rejected")
+    if mc["violated"] and not failed:
+        raise vlib.ToolError(f"L1 invariant {mc['violated']} violated in the model but not reproduced on the code: model out of date")
     rc = verdict.finish()
     distinct = set()
     by = {}
@@ -116,11 +128,11 @@ def run(ctx):
                    "4 sync policies x single/multi-thread; distinct by (query, streams, mode, policy, schedule seed); non-trivial = at least one solution emitted",
            "samples": [{"query": smp[0]["case"]["query"], "policy": smp[0]["case"]["policy"], "mode": smp[0]["case"]["mode"],
                         "first_events": [{k: v for k, v in e.items() if k != "case"} for e in smp[1:8]]}],
-           "states": res["states"], "transitions": res["states"], "traces_validated_against_impl": len(runs),
+           "states": mc["states"], "transitions": mc["generated"], "traces_validated_against_impl": len(runs), "trace_states": res["states"],
            "emitted_solutions_judged": emits, "scenarios_by_configuration": by}
     vlib.write_evidence("C11", ctx.tier, ctx.seed, "model_checking", cov,
                         ["reported[w] is taken from the fire events the hook records under the store lock (not from a separate probe window)",
                          "Timeout policies use a 30 ms wall-clock deadline; the requirement is independent of when a cycle is emitted",
-                         "no design-level MultiImpl model is checked (DESIGN.md L1 for C11 not built); the binding is trace validation"],
+                         "L1 (MultiImpl.tla) treats one firing as one atomic step (the store mutex spans evict..query) and has no rules / static data; it is bound to the code by trace validation only (no L2 replay)"],
                         time.time() - t0, len(verdict.violations))
     return rc
